@@ -40,6 +40,6 @@ except ImportError:
 m["extensions"] = [{"id": i, "subject": e["subject"], "quick_cmd": "./run.py %s --tier quick" % i,
                     "thorough_cmd": "./run.py %s --tier thorough" % i, "evidence_file": "evidence/%s.json" % i,
                     "specs": e["specs"], "statement_in": e["statement_in"]}
-                   for i, e in sorted(EXTENSIONS.items()) if os.path.exists(os.path.join(V, "checks", i.lower() + ".py"))]
+                   for i, e in sorted(EXTENSIONS.items()) if e.get("ready", True) and os.path.exists(os.path.join(V, "checks", i.lower() + ".py"))]
 json.dump(m, open(os.path.join(V, "MANIFEST.json"), "w"), indent=1)
 print("claimed:", [c["property_id"] for c in m["checks"]])
